@@ -919,8 +919,8 @@ def modularity_finetune_und_sign(W, qtype='sta', gamma=1, ci=None, seed=None):
     _, ci = np.unique(ci, return_inverse=True)
     ci += 1
     m = np.tile(ci, (n, 1))
-    q0 = (W0 - np.outer(Kn0, Kn0) / s0) * (m == m.T)
-    q1 = (W1 - np.outer(Kn1, Kn1) / s1) * (m == m.T)
+    q0 = (W0 - gamma * np.outer(Kn0, Kn0) / s0) * (m == m.T)
+    q1 = (W1 - gamma * np.outer(Kn1, Kn1) / s1) * (m == m.T)
     q = d0 * np.sum(q0) - d1 * np.sum(q1)
 
     return ci, q
@@ -1350,8 +1350,8 @@ def modularity_louvain_und_sign(W, gamma=1, qtype='sta', seed=None):
 
         q.append(0)
         # compute modularity
-        q0 = np.trace(W0) - np.sum(np.dot(W0, W0)) / s0
-        q1 = np.trace(W1) - np.sum(np.dot(W1, W1)) / s1
+        q0 = np.trace(W0) - gamma * np.sum(np.dot(W0, W0)) / s0
+        q1 = np.trace(W1) - gamma * np.sum(np.dot(W1, W1)) / s1
         q[h] = d0 * q0 - d1 * q1
 
     _, ci_ret = np.unique(ci[-1], return_inverse=True)
@@ -1490,8 +1490,8 @@ def modularity_probtune_und_sign(W, qtype='sta', gamma=1, ci=None, p=.45,
     _, ci = np.unique(ci, return_inverse=True)
     ci += 1
     m = np.tile(ci, (n, 1))
-    q0 = (W0 - np.outer(Kn0, Kn0) / s0) * (m == m.T)
-    q1 = (W1 - np.outer(Kn1, Kn1) / s1) * (m == m.T)
+    q0 = (W0 - gamma * np.outer(Kn0, Kn0) / s0) * (m == m.T)
+    q1 = (W1 - gamma * np.outer(Kn1, Kn1) / s1) * (m == m.T)
     q = d0 * np.sum(q0) - d1 * np.sum(q1)
 
     return ci, q
